@@ -433,6 +433,9 @@ func (la *LockAnalysis) HeldAt(f *Fn, n ast.Node) Lockset {
 	return nil
 }
 
+// LitEntry is the entry lockset of a function literal created in f.
+func (la *LockAnalysis) LitEntry(f *Fn, lit *ast.FuncLit) Lockset { return la.litEntry(f, lit) }
+
 // litEntry computes the entry lockset of a function literal created in f.
 func (la *LockAnalysis) litEntry(f *Fn, lit *ast.FuncLit) Lockset {
 	p := la.Prog
@@ -456,9 +459,68 @@ func (la *LockAnalysis) litEntry(f *Fn, lit *ast.FuncLit) Lockset {
 			if SyncHigherOrder[fn.FullName()] {
 				return la.heldOrEmpty(f, call)
 			}
+			// a module function that calls its function parameter itself, synchronously: the literal runs with
+			// the locks that function holds at those calls (`func (l *L) locked(fn func()) { l.Lock(); defer l.Unlock(); fn() }`)
+			if hf := p.FnOf(fn); hf != nil && hf != f {
+				for i, a := range call.Args {
+					if ast.Unparen(a) != ast.Expr(lit) {
+						continue
+					}
+					if hs, ok := la.paramCallLocks(hf, i); ok {
+						return hs
+					}
+				}
+			}
 		}
 	}
 	return Lockset{}
+}
+
+// paramCallLocks: the function calls its i-th parameter (a function value)
+// directly, not in a goroutine or a deferred call, and uses it in no other way;
+// the result is the intersection of the locksets held at those calls.
+func (la *LockAnalysis) paramCallLocks(hf *Fn, i int) (Lockset, bool) {
+	pv := hf.Param(i)
+	if pv == nil || hf.Body == nil {
+		return nil, false
+	}
+	if _, isFunc := pv.Type().Underlying().(*types.Signature); !isFunc {
+		return nil, false
+	}
+	var held Lockset
+	ok, n := true, 0
+	ast.Inspect(hf.Body, func(m ast.Node) bool {
+		id, isId := m.(*ast.Ident)
+		if !isId || hf.Info().Uses[id] != types.Object(pv) {
+			return true
+		}
+		call, isCall := la.Prog.Parent(id).(*ast.CallExpr)
+		if !isCall || ast.Unparen(call.Fun) != ast.Expr(id) {
+			ok = false // stored, passed on, compared ...
+			return true
+		}
+		switch la.Prog.Parent(call).(type) {
+		case *ast.GoStmt, *ast.DeferStmt:
+			ok = false
+			return true
+		}
+		h := la.HeldAt(hf, call)
+		if h == nil {
+			ok = false
+			return true
+		}
+		if n == 0 {
+			held = h.clone()
+		} else {
+			held = intersect(held, h)
+		}
+		n++
+		return true
+	})
+	if !ok || n == 0 {
+		return nil, false
+	}
+	return held, true
 }
 
 func (la *LockAnalysis) heldOrEmpty(f *Fn, n ast.Node) Lockset {
